@@ -1174,6 +1174,10 @@ int tls_encrypted_record_print(FILE *fp, const uint8_t *record,  size_t recordle
 		error_print();
 		return -1;
 	}
+	if (recordlen < 5 + tls_record_data_length(record)) {
+		error_print();
+		return -1;
+	}
 
 	protocol = tls_record_protocol(record);
 	format_print(fp, format, indent, "EncryptedRecord\n"); indent += 4;
